@@ -39,13 +39,19 @@ if _U:
                       "contracts; pointer, bounds, pointer-overflow, signed-overflow, undefined-shift and div-by-zero checks "
                       "on; unbounded in input_len/out_len/seek via loop contracts, type-bounded loops unwound with unwinding "
                       "assertions (complete when they pass)",
-        "level_note": _CBMC_NOTE + "; NOT applicable: hand-written assembly (calling convention, callee-saved registers, "
-                      "direction flag), C intrinsics files (cbmc aborts on vector casts), unsafe Rust intrinsics",
-        "units": {"quick": _units("C07", "quick") + [g("c_pointer_casts"), g("kernels_frames")], "thorough": _units("C07", "thorough") + [s("C07")]},
+        "level_note": _CBMC_NOTE + "; hand-written assembly (calling convention, callee-saved registers, direction flag, output "
+                      "frame): NO contract verifier reads it - BOUNDED stand-in only (unit guard:asm_abi, never counted as "
+                      "proved): the unix .S and windows_gnu .S files of SSE2 / SSE4.1 / AVX2 / AVX-512 are called through a "
+                      "trampoline that checks every callee-saved register of System V resp. Win64, the direction flag, the "
+                      "bytes around the output and the result against the portable kernel, over a stated finite set of calls; "
+                      "the MSVC .asm files cannot be assembled here (a change there is undecided); NOT applicable: C intrinsics "
+                      "files (cbmc aborts on vector casts), unsafe Rust intrinsics",
+        "units": {"quick": _units("C07", "quick") + [g("c_pointer_casts"), g("kernels_frames"), g("asm_abi")], "thorough": _units("C07", "thorough") + [s("C07")]},
         "explanation": "memory safety, frames (exactly 32 bytes per hashed input, 64 per XOF block, out_len per finalize, "
                        "plus the hasher) and absence of UB of the C library's C sources, function by function",
-        "uncovered": ["assembly kernels (.S): no verifier on this image reads x86 assembly -> calling convention part of the "
-                      "statement is not decided", "C intrinsics kernels (blake3_sse2.c ...): CBMC crashes on vector typecasts",
+        "uncovered": ["assembly kernels (.S): no verifier on this image reads x86 assembly -> the calling-convention part of the "
+                      "statement is only explored (bounded unit guard:asm_abi: unix and windows_gnu files, finitely many calls), "
+                      "not proved; windows_msvc .asm files: not even that", "C intrinsics kernels (blake3_sse2.c ...): CBMC crashes on vector typecasts",
                       "unsafe Rust intrinsics (rust_sse2.rs ...): not covered", "blake3_neon.c, blake3_tbb.cpp"],
         "assumptions": ["SIMD kernels' frames are assumed contracts", "asm blocks nondeterministic"],
     }
